@@ -13,6 +13,11 @@ FIXED = re.compile(r'(?:const )?Eigen::Matrix<(?:double|float|int|unsigned long|
 def dims_of(tstr):
     m = FIXED.match(tstr or '')
     if not m:
+        t = (tstr or '').replace('const ', '')
+        if t.startswith('romea::core::HomogeneousCoordinates2<') or t.startswith('HomogeneousCoordinates2<'):
+            return 3, 1
+        if t.startswith('romea::core::HomogeneousCoordinates3<') or t.startswith('HomogeneousCoordinates3<'):
+            return 4, 1
         return None
     return int(m.group(1)), int(m.group(2))
 
